@@ -80,6 +80,9 @@ def gen_case(rng, i=None, pruning=False, allow_none=True):
             kw['max_patterns'] = rng.choice([1, 2, 3])
         if rng.random() < 0.6:
             kw['min_strings_per_pattern'] = rng.choice([1, 2, 3])
+    if rng.random() < 0.06 and all(x is not None and not any(ch in x for ch in '\n\r\x0b\x0c\x1c\x1d\x1e\x85\u2028\u2029') and x == x.strip()
+                                   for x in xs):
+        form = rng.choice(['streams-list', 'streams-list', 'streams-file'])
     if form in SERIES_FORMS:
         # pdextract takes only a seed; options are not expressible
         kw = dict(tag=False, strip=False, remove_empties=False, extra_letters=None,
@@ -108,11 +111,17 @@ def build_input(case, order=None):
     if order is not None:
         xs = [xs[j] for j in order]
     form = case['form']
+    if form.startswith('streams-'):
+        # rexpy_streams(..., skip_header=True): the first line is a header, not an example
+        return ['Header line #0 (not data)'] + [x for x in xs if x is not None]
     if form.startswith('extract-'):
         # the module-level extract() entry point; "bytes" = encoded examples together with encoding='utf-8'
         base = build_input(dict(case, form='dict' if form.endswith('dict') else 'list', xs=xs))
         if 'bytes' not in form:
             return base
+        if 'sig' in form and not isinstance(base, dict):
+            # a many-to-one codec: the same text with and without a byte-order mark is the same example
+            return [(b'\xef\xbb\xbf' if k % 3 == 1 else b'') + x.encode('utf-8') for k, x in enumerate(base)]
         if isinstance(base, dict):
             return {k.encode('utf-8'): v for k, v in base.items()}
         return [x.encode('utf-8') for x in base]
@@ -169,8 +178,21 @@ def run_extractor(case, inp=None, **over):
     with contextlib.redirect_stdout(buf):
         if case['form'] in SERIES_FORMS:
             return rexpy.pdextract(inp, seed=case['seed'])
+        if case['form'].startswith('streams-'):
+            in_path = inp
+            if case['form'] == 'streams-file':
+                import os
+                import tempfile
+                fd, in_path = tempfile.mkstemp(suffix='.txt')
+                with os.fdopen(fd, 'w', encoding='utf-8', newline='\n') as f:
+                    f.write('\n'.join(inp) + '\n')
+            try:
+                return rexpy.rexpy_streams(in_path, out_path=False, skip_header=True, size=make_size(case), seed=case['seed'], **kw)
+            finally:
+                if in_path is not inp:
+                    os.unlink(in_path)
         if case['form'].startswith('extract-'):
-            return rexpy.extract(inp, encoding='utf-8' if 'bytes' in case['form'] else None, as_object=True,
+            return rexpy.extract(inp, encoding=('utf-8-sig' if 'sig' in case['form'] else 'utf-8') if 'bytes' in case['form'] else None, as_object=True,
                                  size=make_size(case), seed=case['seed'], **kw)
         return rexpy.Extractor(inp, size=make_size(case), seed=case['seed'], **kw)
 
@@ -184,8 +206,8 @@ def rex_of(x):
 def effective_sampling(case):
     """True when the sampled-attempt machinery can be entered for this input."""
     sz = case['size']
-    if not isinstance(sz, dict) or sz.get('use_sampling') is False:
-        return False
+    if not isinstance(sz, dict):
+        return False          # (use_sampling=False only changes the DEFAULT of do_all: explicit settings still sample)
     if 'do_all' not in sz:
         return False
     n = len(set(x for x in case['xs'] if x is not None))
